@@ -250,7 +250,7 @@ var c10Quotes = []quote{
 
 func init() {
 	p := register(&Prop{ID: "C10", Level: "exploration",
-		Rule: "exhaustive product: inputs 1..3 P2PKH (unsigned / signed / first signed / last signed / unsigned and read back from its extended serialisation) x output counts {0,1,2,3,251,252,253,254} x output mix (all standard / first data / alternating data / first the payload-less `00 6a` / first the bare `6a` / last one of 8 near-data scripts: `6a 00`, `6a 01 42`, `00 6a` + push, `00`, `00 51 6a`, empty, OP_RETURN not first, 75-byte payload) x 11 change destinations (address, P2PKH script, 23-byte P2SH form, 35- and 67-byte P2PK, 1-, 100- and 300-byte scripts, existing output first/last/out of range) x 15 fee quotes (for the small shapes also assembled with mislabelled, unlabelled and relabelled Fee objects) (incl. >1 sat/byte, non-integral rates, unequal std/data rates and denominators) x 14 placements of the available amount relative to the big-integer reference thresholds (inputs<outputs, 0, fee-2..fee+3, fee+dust-1..fee+dust+2, just above the slack, ample). Oracle = the post-conditions of the statement computed with the reference fee model: earlier outputs and inputs untouched, outputs <= inputs, if changed: quoted fee(estimated final size) <= fee left <= quoted fee + ceil(9 bytes) + 9; if unchanged: remainder after the fee a change output needs <= dust (+ the same slack). distinct_nontrivial = distinct cases on which change returned without error",
+		Rule: "exhaustive product: inputs 1..3 P2PKH (unsigned / signed / first signed / last signed / unsigned and read back from its extended serialisation) x output counts {0,1,2,3,251,252,253,254} (and 252/253/254 INPUTS with 1, 2 or 253 outputs) x output mix (all standard / first data / alternating data / first the payload-less `00 6a` / first the bare `6a` / last one of 8 near-data scripts: `6a 00`, `6a 01 42`, `00 6a` + push, `00`, `00 51 6a`, empty, OP_RETURN not first, 75-byte payload) x 11 change destinations (address, P2PKH script, 23-byte P2SH form, 35- and 67-byte P2PK, 1-, 100- and 300-byte scripts, existing output first/last/out of range) x 15 fee quotes (for the small shapes also assembled with mislabelled, unlabelled and relabelled Fee objects, and refreshed from JSON into a quote object that already held default / other rates) (incl. >1 sat/byte, non-integral rates, unequal std/data rates and denominators) x 14 placements of the available amount relative to the big-integer reference thresholds (inputs<outputs, 0, fee-2..fee+3, fee+dust-1..fee+dust+2, just above the slack, ample). Oracle = the post-conditions of the statement computed with the reference fee model: earlier outputs and inputs untouched, outputs <= inputs, if changed: quoted fee(estimated final size) <= fee left <= quoted fee + ceil(9 bytes) + 9; if unchanged: remainder after the fee a change output needs <= dust (+ the same slack). distinct_nontrivial = distinct cases on which change returned without error",
 	})
 	sp := NewSpace(p, "change", c10Check)
 	p.Run = func(r *rep.Run, thorough bool) {
@@ -292,11 +292,33 @@ func init() {
 									for rel := 0; rel < 14; rel++ {
 										yield(c10Case{NIn: nin, Signed: sg, NOut: nout, Mix: mix, Dest: d, Q: q, Rel: rel})
 										if nin == 1 && sg == 0 && nout <= 2 && mix <= 1 && d <= 1 {
-											for _, form := range []int{1, 2, 5} {
+											for _, form := range []int{1, 2, 5, 7, 8} {
 												yield(c10Case{NIn: nin, Signed: sg, NOut: nout, Mix: mix, Dest: d, Q: q, Rel: rel, QForm: form})
 											}
 										}
 									}
+								}
+							}
+						}
+					}
+				}
+			}
+		})
+		// consolidation shapes: the INPUT count crosses the one-byte varint class while the output count does not (and both do)
+		(&Space[c10Case]{P: p, Name: sp.Name, Check: func(c c10Case) []rep.Finding {
+			fs := c10Check(c)
+			if len(fs) == 0 {
+				r.Distinct(fmt.Sprint(c))
+			}
+			return fs
+		}}).Each(r, func(yield func(c10Case)) {
+			for _, nin := range []int{252, 253, 254} {
+				for _, sg := range []int{0, 1} {
+					for _, nout := range []int{1, 2, 253} {
+						for _, d := range []int{0, 1, 8} {
+							for _, q := range c10Quotes {
+								for rel := 0; rel < 14; rel++ {
+									yield(c10Case{NIn: nin, Signed: sg, NOut: nout, Dest: d, Q: q, Rel: rel})
 								}
 							}
 						}
